@@ -340,6 +340,50 @@ impl SqrtFld for Fq2 {
     }
 }
 
+impl Fq2 {
+    /// some cube root, if one exists. q^2 - 1 = 9 m with 3 not dividing m: x0 = a^(3^-1 mod m) is a
+    /// root up to a 9th root of unity, which is found by trying the nine powers of a generator of the
+    /// 3-Sylow subgroup.
+    pub fn cbrt(&self) -> Option<Fq2> {
+        if self.is_zero() {
+            return Some(Fq2::zero());
+        }
+        let n = q() * q() - Z::one();
+        let nine = Z::from(9u32);
+        assert!((&n % &nine).is_zero());
+        let m = &n / &nine;
+        assert!(!(&m % Z::from(3u32)).is_zero());
+        // a is a cube iff a^((q^2-1)/3) = 1
+        if self.pow(&(&n / Z::from(3u32))) != Fq2::one() {
+            return None;
+        }
+        // e = 3^-1 mod m
+        let mm = &m % Z::from(3u32);
+        // 3 e = 1 + k m  ->  choose k in {1, 2} with (1 + k m) divisible by 3
+        let k = if mm == Z::one() { Z::from(2u32) } else { Z::one() };
+        let e = (Z::one() + &k * &m) / Z::from(3u32);
+        let x0 = self.pow(&e);
+        // generator of the 3-Sylow subgroup: c^m for the first c of order divisible by 9
+        let mut c = Fq2::new(Fq::from_u64(1), Fq::from_u64(1));
+        let g = loop {
+            let g = c.pow(&m);
+            if g.pow(&Z::from(3u32)) != Fq2::one() {
+                break g;
+            }
+            c = c.add(&Fq2::new(Fq::from_u64(1), Fq::zero()));
+        };
+        let mut zt = Fq2::one();
+        for _ in 0..9 {
+            let cand = x0.mul(&zt);
+            if cand.sqr().mul(&cand) == *self {
+                return Some(cand);
+            }
+            zt = zt.mul(&g);
+        }
+        None
+    }
+}
+
 // ---------------------------------------------------------------------------------------------
 // flat Fq12
 // ---------------------------------------------------------------------------------------------
